@@ -7,6 +7,13 @@
 //! The op line describes the driver ops performed so far; the Lean driver replays them on the
 //! tree shape that the scanner regenerated from the Rust sources and must print the same dump.
 //! The oracle checks the clauses of C19 directly on the dumps (never through the model).
+//!
+//! Scripts also make the nested intervals NON-UNIFORM before a top-level `set_save_interval`: a component
+//! is given its own interval through its pub `save_interval` field (`poke k v`), a nested locomotive /
+//! the consist is reconfigured through its own setter (`setat k v`); `k` is the position of the object
+//! among the dump lines that carry an interval.  Such a run is ALWAYS followed by a top-level set, half of
+//! the time with the value the consist (or the top object) already holds: the top-level setter must reach
+//! every nested object whatever it held before.
 use crate::prng::Rng;
 use crate::proto::*;
 use altrios_core::consist::locomotive::locomotive_model::{DummyLoco, PowertrainType};
@@ -164,6 +171,48 @@ impl Sim {
     }
     fn set_iv(&mut self, v: Option<usize>) {
         match self { Sim::Loco(s) => s.set_save_interval(v), Sim::Consist(s) => s.set_save_interval(v), Sim::SetSpeed(s) => s.set_save_interval(v), Sim::SpeedLimit(s) => s.set_save_interval(v) }
+    }
+    fn consist_mut(&mut self) -> Option<&mut Consist> {
+        match self { Sim::Loco(_) => None, Sim::Consist(s) => Some(&mut s.loco_con), Sim::SetSpeed(s) => Some(&mut s.loco_con), Sim::SpeedLimit(s) => Some(&mut s.loco_con) }
+    }
+    /// the locomotive a dump path goes through (`…loco_unit#0…` / `…loco_vec#j…`)
+    fn loco_mut(&mut self, segs: &[&str]) -> Option<&mut Locomotive> {
+        if segs.iter().any(|x| *x == "loco_unit#0") {
+            return match self { Sim::Loco(s) => Some(&mut s.loco_unit), _ => None };
+        }
+        let j: usize = segs.iter().find_map(|x| x.strip_prefix("loco_vec#"))?.parse().ok()?;
+        self.consist_mut()?.loco_vec.get_mut(j)
+    }
+    /// Write the interval of the NESTED object with dump path `path`, by-passing the top-level setter:
+    /// `own_setter` = false: raw write of its pub `save_interval` field (components, friction brake);
+    /// `own_setter` = true: the object's own `set_save_interval` (locomotive, consist).
+    /// Returns false when the object offers no such access from outside.
+    fn nested_write(&mut self, path: &str, v: Option<usize>, own_setter: bool) -> bool {
+        let segs: Vec<&str> = path.split('.').collect();
+        if segs.len() < 2 { return false; }
+        let last = segs[segs.len() - 1].split('#').next().unwrap_or("");
+        match (last, own_setter) {
+            ("fric_brake", false) => match self { Sim::SpeedLimit(s) => { s.fric_brake.save_interval = v; true } _ => false },
+            ("loco_con", true) => match self.consist_mut() { Some(c) => { c.set_save_interval(v); true } None => false },
+            ("loco_vec", true) | ("loco_unit", true) => match self.loco_mut(&segs) { Some(l) => { l.set_save_interval(v); true } None => false },
+            ("fc", false) | ("gen", false) | ("res", false) | ("edrv", false) => {
+                let Some(l) = self.loco_mut(&segs) else { return false; };
+                match (&mut l.loco_type, last) {
+                    (PowertrainType::ConventionalLoco(c), "fc") => c.fc.save_interval = v,
+                    (PowertrainType::ConventionalLoco(c), "gen") => c.gen.save_interval = v,
+                    (PowertrainType::ConventionalLoco(c), "edrv") => c.edrv.save_interval = v,
+                    (PowertrainType::HybridLoco(h), "fc") => h.fc.save_interval = v,
+                    (PowertrainType::HybridLoco(h), "gen") => h.gen.save_interval = v,
+                    (PowertrainType::HybridLoco(h), "res") => h.res.save_interval = v,
+                    (PowertrainType::HybridLoco(h), "edrv") => h.edrv.save_interval = v,
+                    (PowertrainType::BatteryElectricLoco(b), "res") => b.res.save_interval = v,
+                    (PowertrainType::BatteryElectricLoco(b), "edrv") => b.edrv.save_interval = v,
+                    _ => return false,
+                }
+                true
+            }
+            _ => false,
+        }
     }
     /// number of steps the trace still allows (trace-driven kinds)
     fn steps_left(&self) -> Option<usize> {
@@ -581,7 +630,91 @@ fn case_fresh_walk(ctx: &mut Ctx, r: &mut Rng, kind: &'static str, vs: Vec<&'sta
     }
 }
 
-/// manual stepping with checkpoints, interval changed mid-run, injected failing steps, then a walk
+/// the nested objects whose interval can be written from outside, read off the dump itself:
+/// (k = position among the dump lines that carry an interval — the index the model uses —, path, own setter?)
+fn nested_targets(nodes: &[Node]) -> Vec<(usize, String, bool)> {
+    let mut out = vec![];
+    for (k, n) in nodes.iter().filter(|n| n.iv.is_some()).enumerate() {
+        let last = n.path.rsplit('.').next().unwrap_or("").split('#').next().unwrap_or("");
+        if !n.path.contains('.') { continue; } // the top-level object: that is what `set` is for
+        match last {
+            "fc" | "gen" | "res" | "edrv" | "fric_brake" => out.push((k, n.path.clone(), false)),
+            "loco_con" | "loco_vec" | "loco_unit" => out.push((k, n.path.clone(), true)),
+            other => panic!("harness: dump node {} ({}) carries an interval but the script generator does not know how to write it", n.path, other),
+        }
+    }
+    out
+}
+
+/// top-level `set_save_interval(v)` with its oracles; returns the dump after it
+fn do_top_set(ctx: &mut Ctx, case: &mut Case, prev: &[Node], v: Option<usize>) -> Vec<Node> {
+    case.sim.set_iv(v);
+    case.ops.push(format!("set {}", iv_tok(v)));
+    ctx.count("hist.script.set_interval");
+    let n = case.sim.dump();
+    emit(ctx, case, &n);
+    oracle_alignment(ctx, case, &n);
+    let mut o = Orc { ctx };
+    o.req("set_interval_changes_nothing_else", n.len() == prev.len() && n.iter().zip(prev).all(|(a, bb)| a.i == bb.i && a.hist_i == bb.hist_i), case, || "set_save_interval changed a counter or a history".into());
+    o.req("set_interval_value_everywhere", n.iter().all(|x| x.iv.map(|w| w == v).unwrap_or(true)), case, || {
+        let bad = n.iter().find(|x| x.iv.map(|w| w != v).unwrap_or(false)).unwrap();
+        format!("after set_save_interval({:?}) at the top level {} still holds {:?}", v, bad.path, bad.iv.unwrap())
+    });
+    n
+}
+
+/// 1..3 writes to nested intervals (pub field of a component / own setter of a locomotive or of the
+/// consist), each compared with the model, then ALWAYS — before any step — a top-level set: with
+/// probability 1/2 with the value the consist (or the top object) holds at that moment, otherwise a fresh one
+fn do_nested_writes_then_set(ctx: &mut Ctx, r: &mut Rng, case: &mut Case, prev: Vec<Node>) -> Vec<Node> {
+    let mut prev = prev;
+    let targets = nested_targets(&prev);
+    let n_w = r.usize(1, 3);
+    for _ in 0..n_w {
+        if targets.is_empty() { break; }
+        let (k, path, own) = targets[r.below(targets.len() as u64) as usize].clone();
+        let cur = prev.iter().find(|x| x.path == path).and_then(|x| x.iv).unwrap();
+        // a value the object does not hold already
+        let mut w = gen_interval(r);
+        for _ in 0..8 { if w != cur { break; } w = gen_interval(r); }
+        if !case.sim.nested_write(&path, w, own) { panic!("harness: cannot write the interval of {}", path); }
+        case.ops.push(format!("{} {} {}", if own { "setat" } else { "poke" }, k, iv_tok(w)));
+        ctx.count("hist.script.poke");
+        ctx.count(if own { "hist.script.nested_write.own_setter" } else { "hist.script.nested_write.pub_field" });
+        ctx.count(&format!("hist.script.poke_kind.{}", case.kind));
+        let n = case.sim.dump();
+        emit(ctx, case, &n);
+        // no alignment oracle here: the intervals are non-uniform on purpose
+        let mut o = Orc { ctx };
+        o.req("nested_write_changes_nothing_else", n.len() == prev.len() && n.iter().zip(&prev).all(|(a, bb)| a.path == bb.path && a.i == bb.i && a.hist_i == bb.hist_i), case, || "writing a nested save_interval changed a counter or a history".into());
+        let inside = |p: &str| p == path || (p.starts_with(&path) && p[path.len()..].starts_with('.'));
+        o.req("nested_write_stays_in_its_subtree", n.iter().zip(&prev).all(|(a, bb)| inside(&a.path) || a.iv == bb.iv), case, || format!("writing the interval of {} changed the interval of an object outside it", path));
+        if own {
+            o.req("nested_setter_reaches_its_subtree", n.iter().all(|x| !inside(&x.path) || x.iv.map(|y| y == w).unwrap_or(true)), case, || {
+                let bad = n.iter().find(|x| inside(&x.path) && x.iv.map(|y| y != w).unwrap_or(false)).unwrap();
+                format!("{}.set_save_interval({:?}) left {:?} in {}", path, w, bad.iv.unwrap(), bad.path)
+            });
+        } else {
+            o.req("nested_field_write_took_effect", n.iter().find(|x| x.path == path).and_then(|x| x.iv) == Some(w), case, || format!("{} does not hold the written value", path));
+        }
+        if n.iter().filter_map(|x| x.iv).collect::<Vec<_>>().windows(2).any(|p| p[0] != p[1]) { ctx.count("hist.script.tree_non_uniform_before_set"); }
+        prev = n;
+    }
+    // the top-level set
+    let top_now = prev.iter().find_map(|x| x.iv).unwrap();
+    let second_now = prev.iter().find(|x| { let l = x.path.rsplit('.').next().unwrap_or(""); l.starts_with("loco_con#") || l.starts_with("loco_unit#") }).and_then(|x| x.iv).unwrap_or(top_now);
+    let v = if r.chance(0.5) {
+        ctx.count("hist.script.set_same_as_current");
+        if r.chance(0.75) { second_now } else { top_now }
+    } else {
+        gen_interval(r)
+    };
+    if prev.iter().any(|x| x.iv.map(|w| w != v).unwrap_or(false)) { ctx.count("hist.script.set_must_overwrite_a_different_nested_value"); }
+    do_top_set(ctx, case, &prev, v)
+}
+
+/// manual stepping with checkpoints, interval changed mid-run (at the top level, and behind its back in
+/// nested objects followed by a top-level set), injected failing steps, then a walk
 fn case_script(ctx: &mut Ctx, r: &mut Rng, kind: &'static str, vs: Vec<&'static str>, iv0: Option<usize>, len: usize) {
     let mut case = build(r, kind, vs, iv0, len);
     let n_ops = r.usize(3, 10);
@@ -590,20 +723,14 @@ fn case_script(ctx: &mut Ctx, r: &mut Rng, kind: &'static str, vs: Vec<&'static 
     oracle_alignment(ctx, &case, &prev);
     for _ in 0..n_ops {
         let left = case.sim.steps_left().unwrap_or(1000);
-        let choice = r.below(10);
-        if choice < 2 {
+        let choice = r.below(12);
+        if choice >= 10 {
+            // nested intervals written behind the back of the top-level cascade, then a top-level set
+            prev = do_nested_writes_then_set(ctx, r, &mut case, prev);
+        } else if choice < 2 {
             // change the interval at the top level
             let v = gen_interval(r);
-            case.sim.set_iv(v);
-            case.ops.push(format!("set {}", iv_tok(v)));
-            ctx.count("hist.script.set_interval");
-            let n = case.sim.dump();
-            emit(ctx, &case, &n);
-            oracle_alignment(ctx, &case, &n);
-            let mut o = Orc { ctx };
-            o.req("set_interval_changes_nothing_else", n.iter().zip(&prev).all(|(a, bb)| a.i == bb.i && a.hist_i == bb.hist_i), &case, || "set_save_interval changed a counter or a history".into());
-            o.req("set_interval_value_everywhere", n.iter().all(|x| x.iv.map(|w| w == v).unwrap_or(true)), &case, || format!("after set_save_interval({:?}) some nested object holds another value", v));
-            prev = n;
+            prev = do_top_set(ctx, &mut case, &prev, v);
         } else if choice < 4 && left > 1 {
             // injected failing step, then repaired
             let old = case.sim.inject();
